@@ -665,17 +665,21 @@ func (t *Collection) VisitItemsAscendEx(target []byte, withValue bool,
 	defer t.rootDecRef(rnl)
 	verifYield(3) // VerifSiteVisitPinned
 
-	var prevVisitItem *Item
+	// The previous item may be evicted and released as soon as its visit
+	// returns, so the order check keeps a copy of its key, not the item.
+	var prevKey []byte
+	havePrev := false
 	var errCheckedVisitor error
 
 	checkedVisitor := func(i *Item, depth uint64) bool {
-		if prevVisitItem != nil && t.compare(prevVisitItem.Key, i.Key) > 0 {
+		if havePrev && t.compare(prevKey, i.Key) > 0 {
 			errCheckedVisitor = fmt.Errorf("corrupted / out-of-order index"+
 				", key: %s vs %s, coll: %p, collName: %s, store: %p, storeFile: %v",
-				string(prevVisitItem.Key), string(i.Key), t, t.name, t.store, t.store.file)
+				string(prevKey), string(i.Key), t, t.name, t.store, t.store.file)
 			return false
 		}
-		prevVisitItem = i
+		prevKey = append(prevKey[:0], i.Key...)
+		havePrev = true
 		return visitor(i, depth)
 	}
 
